@@ -222,8 +222,17 @@ def run(mod, tier, seed):
     rep.assumptions = list(report.COMMON_ASSUMPTIONS) + list(getattr(mod, 'ASSUMPTIONS', []))
     tot = {'states': 0, 'transitions': 0, 'runs': 0}
     per = []
+    open_, _fixed = report.load_findings(mod.PID)
+    broken = False
     for scn in mod.scenarios(tier):
+        if broken:
+            # an earlier (smaller) scenario already violates: a broken tree is reported with its shortest schedule instead of exploring
+            # the larger harnesses, whose state spaces may explode on it; on a tree that holds the property nothing is ever skipped
+            per.append({'scenario': scn, 'skipped': 'an earlier scenario already shows a violation'})
+            continue
         stats, viols, harness = search(mod, scn, bound=scn.get('bound'), cap=scn.get('cap', 300000))
+        if any(sig not in open_ for sig in viols):
+            broken = True
         per.append({'scenario': scn, **{k: v for k, v in stats.items() if k != 'samples'}})
         for k in tot:
             tot[k] += stats[k]
